@@ -21,7 +21,7 @@ from bibtexparser.middlewares.enclosing import RemoveEnclosingMiddleware
 from bibtexparser.middlewares.interpolate import ResolveStringReferencesMiddleware
 
 KS = "aAb-"
-SVALS = ["{v1}", "\"v2\" # x", "w3"]
+SVALS = ["{v1}", "\"v2\" # x", "w3", "{e=f=g}"]      # the last one holds the separator character of the block head
 SHAPES = ("bare", "braced", "quoted", "concat", "number")
 
 
@@ -196,6 +196,8 @@ def task(n_before, n_after, shapes, kl, label, second=None, earlier=None, crlf=F
             ok, exp, got = native(t, mv(snames), [[tuple(mv(list(f))) for f in ef] for ef in fields], mv(own), order,
                                   eng.model_str(m, text0) if reuse else None)
         except Exception as e:  # noqa
+            from pysym.harness import guard_repo_exception
+            guard_repo_exception(e)
             return {"input": t, "observed": f"raised {type(e).__name__}: {e}", "expected": "library"}
         if ok:
             return None
@@ -226,7 +228,7 @@ def main():
     chk = Check("C11", __doc__)
     chk.bounds = {"names": "every @string key / referenced identifier: 1 char (all templates) and 2 chars (single-field templates) over {a,A,b,-} (so non-identifier-like names such as 'a-' occur)",
                   "templates": "0..2 definitions before x 0..1 after x 1..2 fields x value shapes {bare, braced, quoted, concat, number}; plus two-entry documents (metadata is per entry); CRLF line ends; blanks / a tab between '@string' and '{'"}
-    chk.assumptions = ["@string values are the three fixed literals {v1}, \"v2\" # x, w3", "names longer than 2 characters are outside the claim"]
+    chk.assumptions = ["@string values are the fixed literals {v1}, \"v2\" # x, w3, {e=f=g}", "names longer than 2 characters are outside the claim"]
     chk.expected_vacuity = ["reference-resolved", "undefined-name-kept"]
     for nb, na in itertools.product((0, 1, 2), (0, 1)):
         for nf in (1, 2):
